@@ -11,6 +11,13 @@ for c in man['checks']:
         targets.append('MaltModel.Props.' + p)
     if os.path.exists(os.path.join(VERIF, 'lean', 'Driver', p + '.lean')):
         targets.append('drv_' + p.lower())
+# further Props modules audited by C01 (listed in run_c01.MORE_PROPS)
+import ast as _ast
+for node in _ast.parse(open(os.path.join(HERE, 'run_c01.py')).read()).body:
+    if isinstance(node, _ast.Assign) and getattr(node.targets[0], 'id', '') == 'MORE_PROPS':
+        for m in _ast.literal_eval(node.value):
+            if os.path.exists(os.path.join(VERIF, 'lean', m.replace('.', '/') + '.lean')) and any(c['property_id'] == 'C01' for c in man['checks']):
+                targets.append(m)
 subprocess.run([sys.executable, os.path.join(VERIF, 'tools', 'extract.py')], check=True)
 rc = subprocess.run(['lake', 'build'] + targets, cwd=os.path.join(VERIF, 'lean')).returncode
 sys.exit(rc)
